@@ -479,7 +479,9 @@ instance (j : List JEntry) (o : Outcome) : Decidable (C15 j o) := by
 
 /-- C20: if only data operations failed (the pins work), chip-select is high when the call returns -/
 def onlyDataFailures (j : List JEntry) : Bool :=
-  j.all (fun e => e.ok || match e.raw with | .spiWrite _ => true | .spiTransfer _ => true | _ => false)
+  j.all (fun e => e.ok || match e.raw with
+    | .spiWrite _ => true | .spiTransfer _ => true | .i2cWrite _ _ => true | .i2cWriteRead _ _ _ => true
+    | _ => false)
 
 def C20 (j : List JEntry) : Prop := onlyDataFailures j = true → csAfter true j = true
 instance (j : List JEntry) : Decidable (C20 j) := by unfold C20; infer_instance
